@@ -16,7 +16,7 @@ RULE = ("(a) rule-based state machine over a pool of (real Food, label/value mod
         "in_units_*; after every step the result's three labels, its combined label list, the shape convention (series <=> ' each month') "
         "and its numbers are compared with the model, operands are compared with their pre-call snapshot, and operations on different "
         "labels must be refused; (b) the 16 comparison predicates evaluated on a scalar pair and on the equivalent one-month series pair "
-        "for every value triple in a small grid and all four fat/protein inclusion settings (enumerated).  every ordered pair of (label triple, form) is also ENUMERATED through every binary operation (5400 scripted cases); conversions run under drawn nutrition profiles and populations.  Non-trivial = machine run with "
+        "for every value triple in a small grid and all four fat/protein inclusion settings (enumerated).  the unary predicates also on a fine grid around their rounding / threshold boundaries with their optional arguments (rounding_decimals, threshold); every ordered pair of (label triple, form) is also ENUMERATED through every binary operation (5400 scripted cases); conversions run under drawn nutrition profiles and populations.  Non-trivial = machine run with "
         ">= 3 steps containing a label-changing operation; predicate case whose operands differ in a nutrient that a flag excludes; distinct "
         "by hash of the step list / case.")
 ASSUMPTIONS = ["label conventions as stated in the Food class docstring: series <=> ' each month', one month's value <=> ' per month', totals neither",
